@@ -31,7 +31,9 @@ func GetIndexLetters(document *gedcom.Document, livingVisibility LivingVisibilit
 		case LivingVisibilityShow, LivingVisibilityPlaceholder:
 			letterMap[getIndexLetter(individual)] = true
 		case LivingVisibilityHide:
-			// nothing
+			if !individual.IsLiving() {
+				letterMap[getIndexLetter(individual)] = true
+			}
 		}
 	}
 
